@@ -492,3 +492,14 @@ def _superset(ctx, prog, methods):
         ok = eg is not None and eg[1] is True
     ctx.check(ok, 'R04.6', 'unconditional-first-extend', ic.where(exts[0][0]) if exts else ic.where(0), ic.path,
               'the solutions of the unshifted solve must be taken over whenever the result is still empty (so plain-inverse answers are included)')
+    # ... and that take-over comes first: the emptiness test guarding it dominates every push into the result (and with it every
+    # early exit of the shift loop that follows a push), so no path can leave with a recovered candidate but without the plain answers
+    if ok and exts:
+        ebi = exts[0][0]
+        sws = [sw for g, k, sw in ic.guard_terms(ebi) if util.emptiness_guard(strip(g), opw.truth(k)) is not None]
+        sol_local = _vec_local(ic, exts[0][1]['args'][0])
+        pushes = [(bi, t) for bi, t in ic.calls() if cname(callee_name(t)) == 'Vec::push' and _vec_local(ic, t['args'][0]) == sol_local]
+        late = [ic.where(bi) for bi, t in pushes if not (sws and ic.dominates(sws[-1], bi))]
+        ctx.check(not late, 'R04.6', 'take-over-first', ic.where(ebi), ic.path,
+                  'a candidate can be pushed (%s) before the unshifted solutions were taken over: an early exit then returns it alone, without the answers plain inverse finds' % ', '.join(late),
+                  found=', '.join(late), detail='the emptiness test of the take-over dominates %d push site(s)' % len(pushes))
